@@ -849,10 +849,24 @@ def check_chan(prop, tier, seed):
             if pj['id'] == prop:
                 anchors = [f[len('src/draco/'):] for f in pj['anchors']['files']
                            if f.startswith('src/draco/')]
-        rr = rejection_reach(sims[variants[0]], os.path.join(outdir, 'batch-' + variants[0]),
-                             anchors)
-        if rr:
-            cov['rejection_site_reach'] = rr
+        # Reach is measured on an unoptimised build (at -O1 all "return false"
+        # of a function share one basic block), with the same plans, sampled.
+        try:
+            rsim, _ = build('reach')
+            rd = fresh_dir(os.path.join(outdir, 'batch-reach'))
+            rr_run = run_sim(rsim, ['chan', 'batch', '--tier', tier, '--seed', str(seed),
+                                    '--out', os.path.join(rd, 'sum.json'), '--logdir', rd,
+                                    '--workers', str(workers()), '--repo', REPO,
+                                    '--budget', str(max(60, budget // 6 if budget else 60))],
+                             timeout=7200)
+            rr = rejection_reach(rsim, rd, anchors) if rr_run.returncode == 0 else None
+            if rr:
+                rs = load_json(os.path.join(rd, 'sum.json'))
+                rr['measured_on'] = dict(build='reach (-O0, trace-pc-guard)',
+                                         runs=rs['runs'], wall_s=round(rs['wall_s'], 1))
+                cov['rejection_site_reach'] = rr
+        except MachineryFault as e:
+            cov['rejection_site_reach'] = dict(error=str(e))
     cov['canaries'] = canaries
     cov['builds'] = variants
     if vg_stats is not None:
